@@ -185,5 +185,5 @@ func generate(r *hx.Run, pki *dialx.PKI) []dialx.Case {
 			}
 		}
 	}
-	return out
+	return append(out, dialx.FallbackTCPCases()...)
 }
